@@ -10,3 +10,8 @@ chk("C07",
     "A real TinyLfu is driven directly with generated insert/access/cost-update/remove/forced-climb/sketch-fill steps (capacities 1..1000, costs 1..capacity, arbitrary sample counts and sketch contents); an invariant walker checks region membership, sizes, counts, totals, capacity bounds and conservation after every single step, and a progress watchdog reports non-termination. Sampled sequences, not exhaustive.",
     "Policy is driven the way sinkWrite drives it, single-threaded; the walker trusts the white-box snapshot accessor.",
     "structural-invariant walker at every step + progress watchdog")
+
+chk("C04",
+    "The real TimerWheel is driven with explicit times (start times 0..2^50, per-second / irregular / longer-than-rotation advances, schedule / re-schedule in both directions incl. into the past / remove, deadlines adjacent to every level's slot boundaries and wrap-arounds) against a deadline model: never early, gone after the first advance >= deadline + one finest tick, only the newest deadline counts, slot lists well-formed. The same bounds are checked at cache level from EXPIRED notifications under virtual time with harness-run ticks, including a TTL update whose event is delayed past a tick (hook H1). Sampled; thorough adds per-second stepping over 7 virtual days.",
+    "Lateness is measured against 'first advance at T >= deadline + 2^30 ns'; virtual time is produced by shifting the clock origin while no client call is in flight.",
+    "deadline-model monitor over the live timer wheel (explicit time) + notification log under virtual time")
